@@ -86,7 +86,13 @@ end
 
 def param (x : SX) : R Param :=
   match x with
-  | .list [l, n, c, t] => do pure ⟨← nat l, ← name n, ← cst c, ← ty t⟩
+  | .list [l, n, c, t] => do pure ⟨← nat l, ← name n, ← cst c, ← ty t, []⟩
+  | .list [l, n, c, t, .list bs] => do
+      let bn ← bs.mapM fun b =>
+        match b with
+        | .list [bl, bname] => do pure ((← nat bl), (← name bname))
+        | _ => fail "bound name"
+      pure ⟨← nat l, ← name n, ← cst c, ← ty t, bn⟩
   | _ => fail "param"
 
 def unop (x : SX) : R UnOp :=
@@ -141,6 +147,8 @@ partial def expr (x : SX) : R Expr :=
   | .list [.atom "proj", l, a, il, i] => do pure (.proj (← nat l) (← expr a) (← nat il) (← nat i))
   | .list (.atom "range" :: l :: bs) => do pure (.range (← nat l) (← exprs bs))
   | .list (.atom "slice" :: l :: a :: bs) => do pure (.slice (← nat l) (← expr a) (← exprs bs))
+  | .list [.atom "iflet", l, gl, en, it, e, t, f] => do
+      pure (.ifLet (← nat l) (← nat gl) (← name en) (← name it) (← expr e) (← expr t) (← expr f))
   | .list (.atom "pipe" :: l :: a :: f :: args) => do
       pure (.pipe (← nat l) (← expr a) (← expr f) (← exprs args))
   | .list (.atom "lc" :: l :: e :: c :: t :: qs) => do
